@@ -118,6 +118,96 @@ Section Lift.
       + intros H. repeat split; try assumption. constructor; [assumption|constructor].
     - rewrite !Forall_app. repeat split; try assumption. constructor; [assumption|constructor].
   Qed.
+
+  (* ---- the pictures output (run_obs) *)
+  Notation Mrun_obs := (run_obs gst gstart gstep gcomplete lst lstart lstep lcomplete level_known pinned).
+
+  Definition pics_of (us : list dunit) : list Z := snd (Mrun_obs true init us 0 []).
+
+  Lemma run_obs_cons fresh s u r i p :
+    Mrun_obs fresh s (u :: r) i p =
+    match Mstep s u r with
+    | Fail v => (v, i, p)
+    | SeqDone => Mrun_obs true init r (i + 1) p
+    | Continue s' =>
+        Mrun_obs false s' r i
+          (match u_kind u with
+           | KPic _ n _ => p ++ [n]
+           | KFragData _ n _ _ _ => if f_remaining (vf s') =? 0 then p ++ [n] else p
+           | _ => p
+           end)
+    end.
+  Proof. reflexivity. Qed.
+
+  Lemma run_obs_acc us : forall fresh s i p,
+    Mrun_obs fresh s us i p =
+    (fst (fst (Mrun_obs fresh s us 0 [])), i + snd (fst (Mrun_obs fresh s us 0 [])), p ++ snd (Mrun_obs fresh s us 0 [])).
+  Proof.
+    induction us as [|u r IH]; intros fresh s i p.
+    - cbn. rewrite Z.add_0_r, app_nil_r. reflexivity.
+    - rewrite !run_obs_cons. destruct (Mstep s u r) as [s'| |v].
+      + rewrite (IH false s' i). rewrite (IH false s' 0 (match u_kind u with
+           | KPic _ n _ => [] ++ [n]
+           | KFragData _ n _ _ _ => if f_remaining (vf s') =? 0 then [] ++ [n] else []
+           | _ => [] end)).
+        cbn [fst snd]. f_equal.
+        destruct (u_kind u); try (destruct (f_remaining (vf s') =? 0)); cbn [app]; rewrite <- ?app_assoc; reflexivity.
+      + rewrite (IH true init (i + 1) p), (IH true init (0 + 1) []). cbn [fst snd app]. f_equal. f_equal. lia.
+      + cbn. rewrite Z.add_0_r, app_nil_r. reflexivity.
+  Qed.
+
+  Lemma run_obs_verdict us : forall fresh s i p, fst (fst (Mrun_obs fresh s us i p)) = Mrun_from fresh s us.
+  Proof.
+    induction us as [|u r IH]; intros fresh s i p; [reflexivity|].
+    rewrite run_obs_cons, run_from_cons'. destruct (Mstep s u r); [apply IH|apply IH|reflexivity].
+  Qed.
+
+  (* after an accepted complete sequence, observation continues from a fresh state with the sequence
+     counter advanced and that sequence's pictures appended *)
+  Lemma run_obs_app seq : eos_only_last seq = true -> forall fresh s rest i p,
+    Mrun_from fresh s seq = Accept ->
+    Mrun_obs fresh s (seq ++ rest) i p =
+    Mrun_obs true init rest (i + 1) (p ++ snd (Mrun_obs fresh s seq 0 [])).
+  Proof.
+    induction seq as [|u r IH]; [discriminate|]. intros Hlast fresh s rest i p Hacc.
+    change ((u :: r) ++ rest) with (u :: (r ++ rest)). rewrite run_obs_cons.
+    rewrite run_from_cons' in Hacc.
+    rewrite (run_obs_acc (u :: r) fresh s 0 []). rewrite run_obs_cons.
+    pose proof (step_rest s u (r ++ rest) r) as Hsame. unfold same_outcome in Hsame.
+    destruct r as [|u' r'].
+    - change (eos_only_last [u]) with (is_eos_kind (u_kind u)) in Hlast.
+      destruct (Mstep s u ([] ++ rest)) as [s1| |v] eqn:E1; destruct (Mstep s u []) as [s2| |w] eqn:E2; try contradiction.
+      + apply step_not_continue_on_eos in E2. congruence.
+      + cbn. rewrite app_nil_r. reflexivity.
+      + subst w. destruct Hsame; contradiction.
+    - change (eos_only_last (u :: u' :: r')) with (negb (is_eos_kind (u_kind u)) && eos_only_last (u' :: r')) in Hlast.
+      apply andb_prop in Hlast. destruct Hlast as (Hne & Hlast).
+      destruct (Mstep s u ((u' :: r') ++ rest)) as [s1| |v] eqn:E1; destruct (Mstep s u (u' :: r')) as [s2| |w] eqn:E2; try contradiction.
+      + subst s2. rewrite (IH Hlast false s1 rest i _ Hacc).
+        rewrite (run_obs_acc (u' :: r') false s1 0 (match u_kind u with
+           | KPic _ n _ => [] ++ [n]
+           | KFragData _ n _ _ _ => if f_remaining (vf s1) =? 0 then [] ++ [n] else []
+           | _ => [] end)).
+        cbn [fst snd]. f_equal.
+        destruct (u_kind u); try (destruct (f_remaining (vf s1) =? 0)); cbn [app]; rewrite <- ?app_assoc; reflexivity.
+      + apply step_not_done_unless_eos in E2. rewrite E2 in Hne. discriminate.
+      + subst w. destruct Hsame; contradiction.
+  Qed.
+
+  (* C10: the concatenation of accepted complete sequences is accepted, the validator has gone through
+     exactly that many sequences, and it outputs exactly the concatenation of the pictures each sequence
+     produces alone *)
+  Theorem pictures_concat seqs :
+    Forall (fun s => eos_only_last s = true) seqs -> Forall (fun s => Mrun s = Accept) seqs ->
+    forall i p,
+    Mrun_obs true init (concat seqs) i p = (Accept, i + Z.of_nat (length seqs), p ++ concat (map pics_of seqs)).
+  Proof.
+    induction seqs as [|sq r IH]; intros Hl Ha i p.
+    - cbn. rewrite Z.add_0_r, app_nil_r. reflexivity.
+    - inversion Hl; subst. inversion Ha; subst. cbn [concat map length].
+      rewrite (run_obs_app sq H1 true init (concat r) i p H3).
+      rewrite (IH H2 H4). unfold pics_of. rewrite Nat2Z.inj_succ, <- app_assoc. f_equal. f_equal. lia.
+  Qed.
 End Lift.
 
 (* ------------------------------------------------------------------ reset_state (tie T: Gen/StateFields.v) *)
